@@ -9,7 +9,7 @@ sys.path.insert(0, ROOT)
 from props import table  # noqa
 
 LEVEL = {
-    "C07": "other", "C12": "other", "C16": "other",
+    "C07": "other", "C12": "other", "C16": "other", "C13": "fault_enumeration",
 }
 TEXT = {
     "C01": "every function between store_object/retrieve_object and the bytes on disk (Stream, write loop with a proved fold rule, move into place, tagging, lookup) is proved against its contract for all contents, all four kinds of data argument and a symbolic store algorithm; the round-trip and the frame over calls on other pids are lemmas over those contracts",
@@ -24,6 +24,9 @@ TEXT = {
     "C17": "checker contracts with exact raise conditions; for every public call the contract's rejected and read-only outcomes leave the file system term unchanged and the real bodies refine those contracts",
     "C18": "every path a primitive receives is built from fixed directory names and hash digests (path algebra obligations); whole-line comparison in list updates; frame lemmas for an arbitrary different identifier",
     "C19": "lemma over the contracts: one-call storing and step-wise storing give the same outcome class, the same store state, cid, size and default digests; real bodies refine the contracts",
+    "C09": "every file-system primitive of the fully inlined store / tag / delete / metadata calls is checked against the step invariant: permanent files only appear by rename of a closed temporary file with complete content, disappear by rename-away or remove, and are never opened for writing",
+    "C10": "after every primitive of the fully inlined calls the frame over all other pids and the completeness of permanent files are proved; recovery (delete_object then store) is a lemma over the contracts from every partial reference condition without residue",
+    "C13": "the real bodies are re-run with one injected OSError at each primitive in turn (one-off and persistent): success only with the whole effect, a failed store/tag leaves the pid unbound or as before, a failed store_metadata keeps the previous version, other pids untouched; one known finding (persistent read fault defeats the roll-back)",
     "C14": "constructor and configuration functions proved against an outcome-complete contract: accepted iff the supplied configuration equals the recorded one, refused calls create and modify nothing",
     "C15": "_shard proved against the README layout (tokens, remainder, concatenation) from its real comprehension; path builders, reference-file formats and YAML key set proved against the published layout",
 }
@@ -36,6 +39,9 @@ REASONS = {
     "C09": "step-invariant monitor not built yet",
     "C10": "crash-point step invariant not built yet",
     "C13": "fault mode not built yet",
+    "C09": "every file-system primitive of the fully inlined store / tag / delete / metadata calls is checked against the step invariant: permanent files only appear by rename of a closed temporary file with complete content, disappear by rename-away or remove, and are never opened for writing",
+    "C10": "after every primitive of the fully inlined calls the frame over all other pids and the completeness of permanent files are proved; recovery (delete_object then store) is a lemma over the contracts from every partial reference condition without residue",
+    "C13": "the real bodies are re-run with one injected OSError at each primitive in turn (one-off and persistent): success only with the whole effect, a failed store/tag leaves the pid unbound or as before, a failed store_metadata keeps the previous version, other pids untouched; one known finding (persistent read fault defeats the roll-back)",
     "C14": "constructor contracts written; property table entry not finished",
     "C15": "shard proof not built yet",
     "C16": "mode-relation check not built yet",
